@@ -145,8 +145,19 @@ class Bounds:
         self.paths = 256 if q else 4096; self.timeout_ms = 5000 if q else 20000
 
 
-def compile_template(sylt, prog, concrete=None, extra_files=None):
-    src, holes = A.show_program(prog, None, concrete)
+class Template:
+    """a program with typed holes: text (Sylt + ?markers) and its reference AST"""
+    def __init__(self, name, text=None, prog=None, domains=None, role=None, extra_files=None):
+        from syltsem import parse as SP
+        self.name = name; self.role = role or name; self.domains = domains or {}; self.extra_files = extra_files
+        if text is None: text = A.to_text(prog)
+        self.text = text
+        self.prog = SP.strip_parens(SP.parse_program(text)) if prog is None else prog
+
+
+def compile_template(sylt, tpl, concrete=None, extra_files=None):
+    src, holes = A.render(tpl.text, concrete)
+    extra_files = extra_files or tpl.extra_files
     files = {"main.sy": src}
     if extra_files: files.update(extra_files)
     rc, lua, out = common.compile_sy(sylt, files)
@@ -162,11 +173,12 @@ def run_ref_paths(prog, vals, base, bounds, stats):
     return fk.explore(thunk), fk
 
 
-def check_template(sylt, prog, bounds, stats, domains=None, oracle="equiv"):
+def check_template(sylt, tpl, bounds, stats, oracle="equiv"):
     """returns a dict: status in {rejected, load_error, ok, diff, undecided, stuck}, details, counters"""
     t0 = time.time()
     res = {"status": "ok", "paths_ref": 0, "paths_lua": 0, "cut": 0, "undecided": 0, "queries": 0, "diffs": []}
-    src, holes, rc, lua, out = compile_template(sylt, prog)
+    prog = tpl.prog; domains = tpl.domains
+    src, holes, rc, lua, out = compile_template(sylt, tpl)
     res["source"] = src
     if rc != 0 or lua is None:
         res["status"] = "rejected"; res["compiler_output"] = out[-600:]; return res
@@ -218,10 +230,11 @@ def check_template(sylt, prog, bounds, stats, domains=None, oracle="equiv"):
     return res
 
 
-def replay_concrete(sylt, prog, cvals, max_steps=2_000_000):
+def replay_concrete(sylt, tpl, cvals, max_steps=2_000_000):
     """REPLAY: the concretised program is recompiled by the real compiler, its chunk executed concretely, and the
     reference semantics executed concretely. Returns (differs: bool, info)"""
-    src, holes, rc, lua, out = compile_template(sylt, prog, concrete=cvals)
+    prog = tpl.prog
+    src, holes, rc, lua, out = compile_template(sylt, tpl, concrete=cvals)
     if rc != 0 or lua is None: return None, {"why": "concretised program rejected", "out": out[-400:], "source": src}
     try: ast = parse(lua)
     except LuaSyntaxError as e: return None, {"why": "concretised chunk does not load: %s" % e, "source": src, "lua": lua}
